@@ -9,7 +9,7 @@
 (* Layer A (Render / ToStringA).  One behaviour per (document, capacity).  *)
 (***************************************************************************)
 EXTENDS Integers, Sequences, FiniteSets, TLC, FmtTable
-CONSTANTS MaxNodes, MaxNest, Vals, DocNames, Roots, AllCaps, WithInvalid, EmitOn
+CONSTANTS MaxNodes, MaxNest, Vals, DocNames, Roots, AllCaps, WithInvalid, Pres, EmitOn
 
 F  == INSTANCE BinsonFormat
 R  == INSTANCE Render WITH FmtF <- FmtF
@@ -50,11 +50,16 @@ Known(vt) == IF vt.t = "double" THEN vt.v \in FmtKnown
              ELSE \A i \in 1..Len(vt.kids) : Known(vt.kids[i].vt)
 
 \* one (document, capacity) behaviour
-Eval(doc, cap) ==
+\* pre: what the parser object was used for before the call (to_string is verify-based, so it must not matter):
+\*   0 nothing, 1 get_name on the fresh parser (sets the STATE error), 2 root entered and one next()
+Eval(doc, cap, pre) ==
   LET pz == F!Parse(doc, RootKind, ParserMaxD)
       known == ~pz.ok \/ Known(F!ToVT(doc, pz.node))
       i0 == PI!InitP(RootKind, doc, ParserMaxD)
-      vr == IF i0.ok THEN PI!Verify(i0.P, doc) ELSE [ret |-> FALSE, evs |-> <<>>]
+      Ppre == IF ~i0.ok \/ pre = 0 THEN i0.P
+              ELSE IF pre = 1 THEN PI!GetName(i0.P).P
+              ELSE PI!NextP((IF RootKind = "O" THEN PI!GoIntoObject(i0.P, doc) ELSE PI!GoIntoArray(i0.P, doc)).P, doc).P
+      vr == IF i0.ok THEN PI!Verify(Ppre, doc) ELSE [ret |-> FALSE, evs |-> <<>>]
       im == TS!ToStr(vr, doc, cap)
       a  == R!ToStringA(doc, RootKind, ParserMaxD, cap)
       c  == IF cap < 0 THEN 0 ELSE cap
@@ -64,7 +69,7 @@ Eval(doc, cap) ==
             /\ im.maxStore <= c                                        \* C13: nothing at or beyond the capacity
             /\ a.ret => SubSeq(im.mem, 1, a.size + 1) = a.text \o <<0>>   \* text followed by NUL
             /\ a.sizeKnown => TS!PrintRun(0, vr.evs, 1, doc) = a.text   \* C14: print, byte for byte
-      line == "TBEH " \o RootKind \o " " \o ToString(ParserMaxD) \o " " \o Hx(doc) \o " | cap=" \o CapStr(cap)
+      line == "TBEH " \o RootKind \o " " \o ToString(ParserMaxD) \o " " \o Hx(doc) \o " | cap=" \o CapStr(cap) \o " pre=" \o ToString(pre)
               \o " | ret=" \o (IF a.ret THEN "1" ELSE "0") \o " size=" \o (IF ~known THEN "u" ELSE IF a.sizeKnown THEN ToString(a.size) ELSE "x")
               \o " text=" \o (IF ~known THEN "u" ELSE IF a.sizeKnown THEN Hx(a.text) ELSE "x")
               \o " ms=" \o (IF known /\ a.sizeKnown THEN ToString(im.maxStore) ELSE "x")
@@ -78,9 +83,9 @@ Mut(v) == CASE v = "ok" -> buf
             [] v = "trail" -> SubSeq(buf, 1, Len(buf) - 1) \o <<0, buf[Len(buf)]>>  \* junk byte before the root END
 Finish ==
   /\ fin = "no" /\ Len(bstk) = 0
-  /\ \E v \in Variants : \E cap \in Caps(Mut(v)) :
-       LET ev == Eval(Mut(v), cap) IN
-       /\ fin' = v \o CapStr(cap)
+  /\ \E v \in Variants : \E cap \in Caps(Mut(v)) : \E pre \in Pres :
+       LET ev == Eval(Mut(v), cap, pre) IN
+       /\ fin' = v \o CapStr(cap) \o ToString(pre)
        /\ bad' = IF ev.ok THEN "" ELSE "Layer I deviates from Layer A: " \o ev.line
        /\ (EmitOn => PrintT(ev.line))
   /\ UNCHANGED <<buf, bstk, nodes>>
@@ -95,6 +100,8 @@ ValsWide == << <<16, 0>>, <<19, 0, 0, 0, 0, 0, 0, 0, 128>>, <<19, 255, 255, 255,
                <<70, 1, 0, 0, 0, 0, 0, 248, 127>>, <<70, 0, 0, 0, 0, 0, 0, 240, 255>>, <<70, 154, 153, 153, 153, 153, 153, 185, 63>>,
                <<20, 3, 97, 0, 98>>, <<20, 2, 195, 169>>, <<24, 3, 0, 127, 255>> >>
 ValsOne == << <<16, 5>> >>
+Pres0 == {0}
+Pres012 == {0, 1, 2}
 NamesAB == << <<97>>, <<98>>, <<99>> >>
 NamesOdd == << <<>>, <<97, 0, 98>>, <<195, 169>> >>
 RootsOA == {"O", "A"}
